@@ -115,6 +115,10 @@ pub fn canon_reply(name: &[u8], v: V) -> V {
                 V::Array(pairs.into_iter().flat_map(|(k, v)| vec![k, v]).collect())
             }
             x => x },
+        // SSCAN fast path iterates the HashSet: sort the members (the slow path is sorted already)
+        b"SSCAN" => match v {
+            V::Array(mut l) if l.len() == 2 => { if let V::Array(m) = &mut l[1] { if m.iter().all(|x| matches!(x, V::Bulk(_))) { sort_bulks(m); } } V::Array(l) }
+            x => x },
         _ => v,
     }
 }
@@ -155,7 +159,7 @@ impl Runner {
                 newop[2] = Tok::I(self.logical);
                 match cl.read(3000) {
                     Rd::Val(v) => {
-                        if RANDOM_CMDS.contains(&&nm[..]) { v.enc(&mut newop); }
+                        if RANDOM_CMDS.contains(&&nm[..]) || nm == b"ZSCAN" { v.enc(&mut newop); }
                         // replies inside an EXEC array are canonicalised by the queued command's name
                         let v = if nm == b"EXEC" {
                             let q = self.queues.remove(&c).unwrap_or_default();
